@@ -267,13 +267,17 @@ Print Assumptions C13_robust_own_nick.
 Print Assumptions C13_example_session.
 Print Assumptions C13_example_hostile.
 
-(* generated-code tie, stage 2: state handlers.  Gen/GoFuncs.v holds the Gallina TRANSLATION of the
-   Go bodies of h_STNICK, h_PART, h_KICK, h_QUIT, h_TOPIC, h_324, h_332, h_671 (conn.st as an option
-   of an abstract state with the Tracker interface as a record of functions).  For EVERY Tracker
-   record whose methods are TrackerSpec's sp_* (GenEqState.spec_tracker; satisfiable:
-   spec_as_tracker), each, started with tracking on, returns the model handler's final tracker
-   state and is Panic exactly when the model panics.  NOT covered by this tie: h_JOIN, h_MODE,
-   h_311, h_352 (Nick.Equals) and h_353 (fallthrough in a loop) — see notes/design-go2coq.md. *)
+(* generated-code tie, stages 2-3: the state handlers.  Gen/GoFuncs.v holds the Gallina TRANSLATION
+   of the Go bodies of ALL 13 state handlers (conn.st as an option of an abstract state with the
+   Tracker interface as a record of functions; a *state.Nick / *state.Channel as an option of the
+   tuple of its string fields plus ONE abstract component for Modes and Channels / Nicks;
+   Nick.Equals = reflect.DeepEqual as equality of such tuples; the fallthrough switch of h_353 as
+   the chain it means).  For EVERY Tracker record whose methods are TrackerSpec's sp_*
+   (GenEqState.spec_tracker; satisfiable: spec_as_tracker) each handler, started with tracking
+   on, returns the model handler's final tracker state (and lines) and is Panic exactly when the
+   model panics.  h_MODE, h_311, h_352, h_JOIN also assign conn.cfg.Me through conn.Me(): that
+   component is projected away here (Client.v's st_calls_me describes it); h_JOIN needs the
+   tracker to know its own nick, because DeepEqual(nil, nil) is true and me_equals is not. *)
 From Verif Require GoFuncs GenEqState.
 Theorem gen_C13_state_handlers : forall trk, GenEqState.spec_tracker trk -> forall t l,
   GoFuncs.go_client_Conn_h_STNICK trk (Some t) (Line.l_args l) (Line.l_nick l)
@@ -291,9 +295,28 @@ Theorem gen_C13_state_handlers : forall trk, GenEqState.spec_tracker trk -> fora
   /\ GoFuncs.go_client_Conn_h_332 trk (Some t) (Line.l_args l)
     = GenEqState.of_hres (StateHandlers.h_332 l (GenEqState.hst0 t))
   /\ GoFuncs.go_client_Conn_h_671 trk (Some t) (Line.l_args l)
-    = GenEqState.of_hres (StateHandlers.h_671 l (GenEqState.hst0 t)).
+    = GenEqState.of_hres (StateHandlers.h_671 l (GenEqState.hst0 t))
+  /\ GoFuncs.go_client_Conn_h_353 trk (Some t) (Line.l_args l)
+    = GenEqState.of_hres (StateHandlers.h_353 l (GenEqState.hst0 t)).
 Proof. exact GenEqState.go_state_handlers_eq. Qed.
+Theorem gen_C13_state_handlers_me : forall trk, GenEqState.spec_tracker trk -> forall me t l,
+  GoBytes.bind (GoFuncs.go_client_Conn_h_MODE GenEqState.nrest_eqb trk me (Some t) (Line.l_args l))
+               (fun r => GoBytes.Ok (snd r))
+    = GenEqState.of_hres (StateHandlers.h_MODE l (GenEqState.hst0 t))
+  /\ GoBytes.bind (GoFuncs.go_client_Conn_h_311 GenEqState.nrest_eqb trk me (Some t) (Line.l_args l))
+                  (fun r => GoBytes.Ok (snd r))
+    = GenEqState.of_hres (StateHandlers.h_311 l (GenEqState.hst0 t))
+  /\ GoBytes.bind (GoFuncs.go_client_Conn_h_352 GenEqState.nrest_eqb trk me (Some t) (Line.l_args l))
+                  (fun r => GoBytes.Ok (snd r))
+    = GenEqState.of_hres (StateHandlers.h_352 l (GenEqState.hst0 t))
+  /\ (StateHandlers.is_some (snd (sp_Me t)) = true ->
+      GoBytes.bind (GoFuncs.go_client_Conn_h_JOIN GenEqState.nrest_eqb trk me (Some t) (Line.l_args l)
+                      (Line.l_host l) (Line.l_ident l) (Line.l_nick l))
+                   (fun r => GoBytes.Ok (snd (fst r), snd r))
+      = GenEqState.of_hres_out (StateHandlers.h_JOIN l (GenEqState.hst0 t))).
+Proof. exact GenEqState.go_state_handlers_me_eq. Qed.
 Example gen_C13_tracker_instance : GenEqState.spec_tracker GenEqState.spec_as_tracker.
 Proof. exact GenEqState.spec_as_tracker_ok. Qed.
 Print Assumptions gen_C13_state_handlers.
+Print Assumptions gen_C13_state_handlers_me.
 Print Assumptions gen_C13_tracker_instance.
